@@ -39,7 +39,9 @@ import (
 func init() { log.SetOutput(io.Discard) }
 
 var paths = []string{"example.com/a", "example.com/Mixed/Case", "example.com/b/v2", "rsc.io/q"}
-var versions = []string{"v1.0.0", "v1.2.3", "v1.3.0-beta.1", "v0.0.0-20200101120000-abcdef123456", "v2.0.0+incompatible", "v2.1.0", "v1.0.0-RC1", "v0.1.0"}
+var versions = []string{"v1.0.0", "v1.2.3", "v1.3.0-beta.1", "v0.0.0-20200101120000-abcdef123456", "v2.0.0+incompatible", "v2.1.0", "v1.0.0-RC1", "v0.1.0",
+	// the other two pseudo-version forms, one of them marked +incompatible
+	"v1.2.4-0.20200101120000-abcdef123456", "v2.0.1-0.20190101000000-0123456789ab+incompatible", "v1.3.0-beta.1.0.20200101120000-abcdef123456"}
 
 const pseudo = "v0.0.0-20200101120000-abcdef123456"
 
@@ -182,7 +184,7 @@ func genPlan(t *rapid.T, tier string) any {
 		if rapid.IntRange(0, 5).Draw(t, "near") == 0 {
 			r.Near = rapid.IntRange(1, 8).Draw(t, "nearkind")
 		}
-		if r.Near == 0 && versions[r.Ver] == pseudo && rapid.IntRange(0, 2).Draw(t, "byhash") == 0 {
+		if r.Near == 0 && isPseudo(versions[r.Ver]) && rapid.IntRange(0, 2).Draw(t, "byhash") == 0 {
 			r.Hash = rapid.SampledFrom([]string{"abcdef123456", "abcdef12", "abcdef1234567890"}).Draw(t, "hash")
 		} else if r.Near == 0 && len(p.Mods) > 0 && rapid.IntRange(0, 9).Draw(t, "byshort") == 0 {
 			// the commit hash recorded in the .info of some stored version - asked of this or of another module path
@@ -311,10 +313,35 @@ func modOf(m ModVer) []byte {
 	return []byte("module " + paths[m.Path] + "\n\ngo 1.20\n")
 }
 
+// isPseudo: the three pseudo-version forms of the Go modules reference (vX.0.0-yyyymmddhhmmss-rev,
+// vX.Y.Z-pre.0.yyyymmddhhmmss-rev, vX.Y.(Z+1)-0.yyyymmddhhmmss-rev), each possibly with +metadata.
+func isPseudo(ver string) bool {
+	if i := strings.Index(ver, "+"); i >= 0 {
+		ver = ver[:i]
+	}
+	j := strings.LastIndex(ver, "-")
+	if j < 0 || strings.Count(ver, "-") < 2 || j+1 >= len(ver) {
+		return false
+	}
+	head := ver[:j] // ...yyyymmddhhmmss
+	if len(head) < 15 {
+		return false
+	}
+	ts := head[len(head)-14:]
+	for _, c := range ts {
+		if c < '0' || c > '9' {
+			return false
+		}
+	}
+	before := head[:len(head)-14]
+	core := ver[1:strings.Index(ver, "-")]
+	return strings.HasSuffix(before, ".0.") || strings.HasSuffix(before, "-0.") || (strings.HasSuffix(before, "-") && strings.HasSuffix(core, ".0.0"))
+}
+
 // listed applies Go's rule for which versions of a path are valid and not pseudo-versions.
 func listed(path, ver string) bool {
-	if strings.Count(ver, "-") >= 2 && strings.HasPrefix(ver, "v0.0.0-") {
-		return false // pseudo-version
+	if isPseudo(ver) {
+		return false
 	}
 	// Go's rule (x/mod module.Check): a path with a /vN suffix takes versions of major N;
 	// a path without one takes v0, v1, or anything marked +incompatible.
@@ -435,8 +462,11 @@ func runWith(t *testing.T, p *Plan, out *simcheck.Outcome, dir, other string, ke
 					continue
 				}
 				hs := []string{shortOf(m)}
-				if versions[m.Ver] == pseudo {
-					hs = append(hs, pseudo[strings.LastIndex(pseudo, "-")+1:])
+				if v := versions[m.Ver]; isPseudo(v) {
+					if i := strings.Index(v, "+"); i >= 0 {
+						v = v[:i]
+					}
+					hs = append(hs, v[strings.LastIndex(v, "-")+1:])
 				}
 				for _, h := range hs {
 					// (a stored version whose .info records no hash at all may be taken for any commit: not asserted either)
@@ -707,7 +737,7 @@ func diffMaps(want, have map[string]string) string {
 var harness = &simcheck.Harness{
 	Property: "C20",
 	Level:    "exploration",
-	Rule: "rapid draws a module directory (1-5 module versions over 4 paths incl. upper-case and /v2, 8 versions incl. pre-release, pseudo, +incompatible, upper-case and invalid-for-path ones; " +
+	Rule: "rapid draws a module directory (1-5 module versions over 4 paths incl. upper-case and /v2, 11 versions incl. pre-release, the three pseudo-version forms, +incompatible, upper-case and invalid-for-path ones; " +
 		".txt, .txtar or directory layout; .info, .mod, nested files, top-level and nested dot files, empty files, now and then a 70 KB file, files without final newline), optionally an earlier Server of the same process over a directory that disagrees with this one (asked for everything it stores, then closed), then 2-5 client tasks with 1-5 requests each " +
 		"(list / .info / .mod / .zip of stored and absent versions, near-miss spellings of stored versions such as v1, v1.0, v1.0.0+meta, malformed URLs, unrelated files dropped into the served directory between requests, a storm of 10-24 requests for distinct module paths that do not exist, requests by commit hash (the pseudo-version's, or the one recorded in a stored version's .info, asked of that or of another module path: 404 when it names no stored version of the path, otherwise unasserted), and client faults: a client that has given up before the handler runs (cancelled context, unasserted), slow clients whose headers or response writes take 1-120 simulated seconds against whatever time limits the server was configured with; two thirds of the clients share their first request) and a schedule; " +
 		"non-trivial = more context switches than clients+3; distinct by decision-trace hash",
